@@ -156,13 +156,21 @@ theorem closed_needs_prefix (op : Nat) (base : Tok) (b : Bytes) (ops : List Nat)
     allowedDeviation op base (.closed b) ops all = true ↔ b.isPrefixOf base.bytes = true := by
   simp [allowedDeviation]
 
-/-- altered file data is never acceptable: for the read commands a complete answer that differs from
-    the fault-free one is rejected (they have no failure code) -/
+/-- altered file data is never acceptable: a complete answer of a read command that differs from the
+    fault-free one is rejected — the critical reads have no failure code at all, the ordinary read only
+    its 4-byte −1 -/
 theorem read_data_never_altered (base : Tok) (b : Bytes) (ops : List Nat) (all : List Tok) :
-    allowedDeviation Gen.proto_CmdReadFile base (.resp b) ops all = false ∧
+    (allowedDeviation Gen.proto_CmdReadFile base (.resp b) ops all = true → b = neg 4) ∧
     allowedDeviation Gen.proto_CmdReadFileCritical base (.resp b) ops all = false ∧
     allowedDeviation Gen.proto_CmdReadCD2048Critical base (.resp b) ops all = false := by
-  refine ⟨?_, ?_, ?_⟩ <;>
+  refine ⟨?_, ?_, ?_⟩
+  · intro h
+    simp [allowedDeviation, failureResp, knownEntry, entryKey, Gen.proto_CmdReadFile, Gen.proto_CmdReadFileCritical,
+      Gen.proto_CmdReadCD2048Critical, Gen.proto_CmdOpenDir, Gen.proto_CmdCreateFile, Gen.proto_CmdWriteFile,
+      Gen.proto_CmdDeleteFile, Gen.proto_CmdMkdir, Gen.proto_CmdRmdir, Gen.proto_CmdOpenFile, Gen.proto_CmdStatFile,
+      Gen.proto_CmdGetDirSize, Gen.proto_CmdReadDirEntry, Gen.proto_CmdReadDirEntryV2, Gen.proto_CmdReadDir] at h
+    exact h.symm
+  all_goals
     simp [allowedDeviation, failureResp, knownEntry, entryKey, Gen.proto_CmdReadFile, Gen.proto_CmdReadFileCritical,
       Gen.proto_CmdReadCD2048Critical, Gen.proto_CmdOpenDir, Gen.proto_CmdCreateFile, Gen.proto_CmdWriteFile,
       Gen.proto_CmdDeleteFile, Gen.proto_CmdMkdir, Gen.proto_CmdRmdir, Gen.proto_CmdOpenFile, Gen.proto_CmdStatFile,
@@ -174,6 +182,22 @@ theorem short_read_must_be_invisible (allOps : List Nat) (allBase : List Tok) (i
     judgeFrom true allOps allBase i (op :: ops) (b :: bs) (g :: gs) ≠ .ok := by
   have : (g == b) = false := by simpa using h
   simp [judgeFrom, this]
+
+/-- an OPEN_FILE answered with the failure code has opened nothing: data served by a READ_FILE that
+    follows it directly is rejected (the file used to stay open when the handler's own Stat failed) -/
+theorem data_after_failed_open_rejected (allOps : List Nat) (allBase : List Tok) (i : Nat) (ops : List Nat)
+    (b : Tok) (bs gs : List Tok) (data : Bytes)
+    (hb : b ≠ .resp (neg 8 ++ zeros 8)) (hd : data ≠ neg 4) :
+    judgeFrom false allOps allBase i (Gen.proto_CmdOpenFile :: Gen.proto_CmdReadFile :: ops) (b :: bs)
+      (.resp (neg 8 ++ zeros 8) :: .resp data :: gs) ≠ .ok := by
+  have h1 : ((Tok.resp (neg 8 ++ zeros 8)) == b) = false := by
+    simp only [beq_eq_false_iff_ne, ne_eq]; exact fun h => hb h.symm
+  have hf : failureResp Gen.proto_CmdOpenFile = some (neg 8 ++ zeros 8) := by decide
+  have hdev : allowedDeviation Gen.proto_CmdOpenFile b (.resp (neg 8 ++ zeros 8)) allOps allBase = true := by
+    simp [allowedDeviation, hf]
+  have h2 : ((Tok.resp data) == Tok.resp (neg 4)) = false := by
+    simp only [beq_eq_false_iff_ne, ne_eq, Tok.resp.injEq]; exact hd
+  simp [judgeFrom, h1, hdev, hf, Tok.bytes, h2]
 
 /-! ### key lookup under faults -/
 section KeyLookup
